@@ -674,6 +674,12 @@ func (e *Env) call(x SCall) SVal {
 		h := "GH:" + id.Name
 		e.p.registerHeap(h, ArraySort(SInt, SInt))
 		return SVal{T: Select(e.cur.H(e.p, h), o.T), Typ: tInt}
+	case "str_atoi":
+		argn(1)
+		return SVal{T: App("str_atoi", SInt, e.elab(x.Args[0]).T), Typ: tInt}
+	case "str_itoa":
+		argn(1)
+		return SVal{T: App("str_itoa", SStr, e.elab(x.Args[0]).T), Typ: tString}
 	case "visited":
 		argn(1)
 		v, ok := e.vars["$vis"]
